@@ -34,7 +34,7 @@ EXISTING = ["", "a=1", "a=1&a=2", "a=1&b=2&a=3", "a=&b", "a=1&&b=2", "a=1&", "a=
             # keys whose stored spelling is not the one the query-part quoter would produce
             "a=1;", "a=1&b=;", "a;", "a=1&b=2&",
             "full%20name=x&b=2", "a;b=1&c=2", "k%2fz=1&%61=2&b=3", "a+b=1&a%2Bb=2", "%41=1&a=2"]
-KEYS = ["a", "b", "A", "", "k", "é", "a b", "&", "=", "+", ";", "%41", "a/b?", "#"]
+KEYS = ["a", "b", "A", "", "k", "é", "a b", "&", "=", "+", ";", "%41", "a/b?", "#", "query"]   # last: the name of the methods' own parameter
 
 
 class IntSub(int):
